@@ -10,3 +10,10 @@ def run(chk):
                 "budget (watchdog) and its interaction count is compared with the linear bound; "
                 "non-trivial = some op made at least two change_track attempts; distinct by op sequence")
     core_check.run_core(chk, "C04", [("faults", 6), ("schedule", 2), ("tracklist", 1)], ["Property_C04.v"])
+    if not chk.replay:
+        # the single core thread with real actors around it: a listener that needs the core while the
+        # core serves a request must never make that request wait (shared stage of the Actors area)
+        import c18_shared
+
+        n = c18_shared.core_request_returns_with_listeners(chk, prop="C04", runs=2, bound_s=8)
+        chk.notes.append(f"real-actor stage core_request_returns_with_listeners: {n} runs")
